@@ -20,6 +20,13 @@ axiom('scaler.fit.fitted', forall([_X], sc_fitted(sc_fit(_X)), [sc_fit(_X)]), ['
 axiom('scaler.pfit.fitted', forall([_o, _X], sc_fitted(sc_pfit(_o, _X)), [sc_pfit(_o, _X)]), ['scaler_partial_fit'], 'numpy')
 axiom('scaler.fix.fitted', forall([_o], sc_fitted(sc_fix(_o)) == sc_fitted(_o), [sc_fix(_o)]),
       ['scaler_fix_small_variance'], 'numpy')
+from .engine import T_isnone    # noqa
+axiom('scaler.notnone.new', z3.Not(T_isnone(sc_new)), ['scaler_unfitted'], 'numpy')
+axiom('scaler.notnone.fit', forall([_X], z3.Not(T_isnone(sc_fit(_X))), [sc_fit(_X)]), ['scaler_fit'], 'numpy')
+axiom('scaler.notnone.pfit', forall([_o, _X], z3.Not(T_isnone(sc_pfit(_o, _X))), [sc_pfit(_o, _X)]), ['scaler_partial_fit'],
+      'numpy')
+axiom('scaler.notnone.fix', forall([_o], T_isnone(sc_fix(_o)) == T_isnone(_o), [sc_fix(_o)]), ['scaler_fix_small_variance'],
+      'numpy')
 axiom('scaler.apply.shape', forall([_o, _X], z3.And(mrows(sc_apply(_o, _X)) == mrows(_X), mcols(sc_apply(_o, _X)) == mcols(_X)),
                                    [sc_apply(_o, _X)]), ['scaler_transform'], 'numpy')
 
